@@ -858,3 +858,87 @@ def else_after_return(sources: SourceSet) -> SourceSet:
 
 
 VARIANTS.update({"compare-flip": compare_flip, "de-morgan": de_morgan, "else-after-return": else_after_return})
+
+
+class _IfToTernary(ast.NodeTransformer):
+    """``if c: return a`` / ``else: return b``  ->  ``return a if c else b``; same for single assignments to one name."""
+
+    def visit_If(self, node):
+        self.generic_visit(node)
+        if len(node.body) == 1 and len(node.orelse) == 1 and not any(isinstance(n, ast.NamedExpr) for n in ast.walk(node.test)):
+            a, b = node.body[0], node.orelse[0]
+            if isinstance(a, ast.Return) and isinstance(b, ast.Return) and a.value is not None and b.value is not None:
+                return ast.copy_location(ast.Return(value=ast.IfExp(test=node.test, body=a.value, orelse=b.value)), node)
+            if (
+                isinstance(a, ast.Assign) and isinstance(b, ast.Assign) and len(a.targets) == 1 and len(b.targets) == 1
+                and isinstance(a.targets[0], ast.Name) and isinstance(b.targets[0], ast.Name) and a.targets[0].id == b.targets[0].id
+            ):
+                return ast.copy_location(ast.Assign(targets=[a.targets[0]], value=ast.IfExp(test=node.test, body=a.value, orelse=b.value)), node)
+        return node
+
+
+def if_to_ternary(sources: SourceSet) -> SourceSet:
+    out = {}
+    for rel, text in sources.files.items():
+        tree = _IfToTernary().visit(ast.parse(text))
+        ast.fix_missing_locations(tree)
+        out[rel] = ast.unparse(tree) + "\n"
+    return SourceSet(out, sources.root)
+
+
+class _IntroduceLocals(ast.NodeTransformer):
+    """``return f(<call>, ...)`` / ``x = f(<call>)``: every call argument that is itself a call gets a local first
+    (only when everything evaluated before it is a plain name/attribute/constant, so the order of effects is kept)."""
+
+    def __init__(self):
+        self.n = 0
+
+    @staticmethod
+    def _pure(e):
+        while isinstance(e, ast.Attribute):
+            e = e.value
+        return isinstance(e, (ast.Name, ast.Constant))
+
+    def _block(self, stmts):
+        out = []
+        for s in stmts:
+            v = getattr(s, "value", None)
+            if isinstance(s, (ast.Return, ast.Assign, ast.Expr)) and isinstance(v, ast.Call) and self._pure(v.func) and not any(isinstance(n, (ast.Yield, ast.YieldFrom, ast.Lambda, ast.NamedExpr)) for n in ast.walk(s)):
+                new_args = []
+                ok = True
+                for a in v.args:
+                    if isinstance(a, ast.Call) and ok and not isinstance(a.func, ast.Name) or (isinstance(a, ast.Call) and ok and isinstance(a.func, ast.Name) and a.func.id not in ("super", "cast")):
+                        self.n += 1
+                        name = f"arg_tmp{self.n}"
+                        out.append(ast.copy_location(ast.Assign(targets=[ast.Name(name, ast.Store())], value=a, lineno=s.lineno), s))
+                        new_args.append(ast.Name(name, ast.Load()))
+                    else:
+                        if not self._pure(a):
+                            ok = False
+                        new_args.append(a)
+                v.args = new_args
+            out.append(s)
+        return out
+
+    def generic_visit(self, node):
+        super().generic_visit(node)
+        for field in ("body", "orelse"):
+            v = getattr(node, field, None)
+            if isinstance(v, list) and v and isinstance(v[0], ast.stmt) and not isinstance(node, (ast.Module, ast.ClassDef)):
+                setattr(node, field, self._block(v))
+        if isinstance(node, ast.Match):
+            for c in node.cases:
+                c.body = self._block(c.body)
+        return node
+
+
+def introduce_locals(sources: SourceSet) -> SourceSet:
+    out = {}
+    for rel, text in sources.files.items():
+        tree = _IntroduceLocals().visit(ast.parse(text))
+        ast.fix_missing_locations(tree)
+        out[rel] = ast.unparse(tree) + "\n"
+    return SourceSet(out, sources.root)
+
+
+VARIANTS.update({"if-to-ternary": if_to_ternary, "introduce-locals": introduce_locals})
